@@ -125,6 +125,48 @@ def init_walkers(ctx):
                 return not pol
         return None
 
+    # eigenvectors that define an occupation order are taken in *descending* eigenvalue order: eigh returns them
+    # ascending, so each eigenvector matrix that reaches a returned walker is reversed ([:, ::-1], flip) or tail-sliced
+    # ([:, -n:]) first.  In ascending order the leading columns -- the ones a restricted walker's dn block, or a
+    # [:, :n] selection, keeps -- are the least occupied ones.
+    def _descending(parent, child) -> bool:
+        par = parent
+        if par.op == "call" and ((array_fn(par) or "").split(".")[-1] in ("flip", "fliplr")):
+            return True
+        if par.op == "getitem" and par.args[0] is child:
+            ix = par.args[1]
+            cols = ix.args[1] if ix.op == "tuple" and len(ix.args) == 2 else None
+            if cols is not None and cols.op == "slice" and len(cols.args) >= 2:
+                lo, hi = cols.args[0], cols.args[1]
+                st = cols.args[2] if len(cols.args) > 2 else None
+                stv = st.args[0] if hasattr(st, "op") and st.op == "const" else st
+                if stv == -1:
+                    return True
+                neg = hasattr(lo, "op") and ((lo.op == "unop" and lo.args[0] == "-") or
+                                             (lo.op == "const" and isinstance(lo.args[0], int) and lo.args[0] < 0))
+                hi_none = not hasattr(hi, "op") or (hi.op == "const" and hi.args[0] is None)
+                if neg and hi_none:
+                    return True
+        return False
+
+    vec_uses, asc = 0, []
+    for path, term, line in ret_leaves:
+        sub = list(subterms(term))
+        vecs = [x for x in sub if x.op == "getitem" and x.args[1].op == "const" and x.args[1].args[0] == 1 and
+                strip_wrappers(x.args[0]).op == "call" and (array_fn(strip_wrappers(x.args[0])) or "").split(".")[-1] == "eigh"]
+        for v in vecs:
+            parents = [y for y in sub if any(a is v for a in y.args if hasattr(a, "op"))]
+            for par in parents:
+                vec_uses += 1
+                if not _descending(par, v):
+                    asc.append((line, show(par, maxdepth=2)[:70]))
+    if vec_uses:
+        ctx.ob("PAIR-4", f"{fi.qualname}: eigenvector columns enter the walkers in descending-eigenvalue (occupation) order",
+               not asc, f"{vec_uses} use(s) of eigh eigenvectors reversed or tail-sliced" if not asc else
+               f"used in ascending order (leading columns = least occupied): {asc[:3]}", fi)
+    else:
+        ctx.rep.note(f"{fi.qualname}: no eigh eigenvector matrix reaches a returned walker; ordering rule not applicable")
+
     is_restricted = lambda c: c is restricted
     for k, (path, term, line) in enumerate(ret_leaves):
         pol = polarity(path, is_restricted)
